@@ -40,8 +40,11 @@ inductive Body
   | vote (t : VType) (round : Nat) (bid : Bid)
   deriving DecidableEq, Repr, Inhabited
 
-/-- a signed message: `sender` is the validator index it claims, `ok` whether the signature verifies
-for that validator's key -/
+/-- a signed message: `sender` is the validator index (slot) it claims, `ok` whether it verifies for
+that validator: it carries that validator's address and an intact signature by that validator's key.
+(A vote whose address / index / signer do not belong together is a message with `ok = false` for
+the slot it claims: `VoteSet.addVote` rejects it — `Tmv.Cons.VoteSet.addVote` checks address and
+signer against the index separately; the sign bytes contain neither index nor address.) -/
 structure Msg where
   sender : Nat
   body : Body
@@ -59,7 +62,7 @@ not verify is signed by nobody's key (`signer = n` is no validator) -/
 def toInput (nc : NetCfg) (m : Msg) (peer : Peer) : Input :=
   match m.body with
   | .proposal r b pol => .proposal { round := r, bid := b, pol := pol, signer := if m.ok then m.sender else nc.n }
-  | .vote t r bid => .vote ⟨t, r, bid, m.sender, m.ok⟩ peer
+  | .vote t r bid => .vote ⟨t, r, bid, m.sender, m.ok, m.sender, m.sender⟩ peer
 
 structure Net where
   nodes : Nat → NodeState
